@@ -1,6 +1,6 @@
 """C05 Every instruction word executes with the specified semantics."""
 import astq
-from rules import a64hsem, a64sem, decode, interpsem, jit, jitcross, rv64, rvhsem, sshash, x86hsem, a64fp, rvfp, cfrcross
+from rules import a64hsem, a64sem, decode, interpsem, jit, jitcross, rv64, rvhsem, sshash, x86hsem, a64fp, rvfp, cfrcross, portable
 
 LEVEL = 'other'
 TECHNIQUE = ('exhaustive path enumeration of the decoder against the specification tables + known-bits abstract interpretation of FP bit-pattern constructors; known-bits abstract execution of the A64 immediate helpers with the architectural meaning of the emitted instructions'
@@ -67,3 +67,4 @@ def run(ctx, R):
     rvfp.rule_fp_hsem(ctx, R)
     cfrcross.rule_a64(ctx, R)
     cfrcross.rule_rv(ctx, R)
+    portable.rule_endian_pair(ctx, R)
